@@ -1,6 +1,7 @@
 import Zc.Proofs.Response
 import Zc.Proofs.ResponseComplete
 import Zc.Props.C11Wire
+import Zc.Props.C12Host
 /-! # C11 — replies are routed and formatted as RFC 6762 §5.4, §6 and §6.7 require
 
 The decision logic of `_QueryResponse` / `async_response` / `handle_assembled_query` stated outright,
@@ -286,6 +287,74 @@ with "the socket is IPv6" -/
 theorem C11_family (ipv6_socket address_has_colon : Bool) :
     Gen.Reply.can_send_to ipv6_socket address_has_colon = true ↔ ipv6_socket = address_has_colon :=
   GenFacts.can_send_to _ _
+
+/-! ## the first sentence of the property, end to end: logical routing (above), timing (C12's host runs), sockets (`C11Net`) -/
+
+section EndToEnd
+open Zc.Reply.Net
+
+/-- **A legacy query, end to end, on the sockets** ("a query from a source port other than 5353 gets a unicast reply to that address and
+port on the receiving socket, echoing the query id …, in addition to the normal multicast").  In any state a run from the initial
+state reaches (`HInv`), let a block answer a query (`pkts`, any number of packets and questions) that came from `(addr, port)`, `port ≠ 5353`,
+on a host with any sockets.  Then for **every** unsuppressed candidate answer `x` of every question of every packet:
+
+1. in that very block a unicast datagram carrying `x` is written on the receiving socket to the querier's complete sockaddr, with the id
+   of the first packet; and
+2. `x` is multicast **on every socket** of the host: in the same block, or by a queue's timer callback at most 500 ms (aggregated) /
+   1200 ms (seen in the last second) later, in every continuation of the run — or the run ends before that deadline. -/
+theorem C11_legacy_end_to_end (w : World) {hO hD : List AddRec} {clock : Int} {h : Host} (hI : HInv hO hD clock h)
+    {e : Ev} {es : List Ev} {h' : Host} {c' : Int} {r : StepOut} {tr : List (Ev × StepOut)}
+    (hr : HRun h clock (e :: es) h' c' ((e, r) :: tr))
+    {lis : Listener} {pkts : List Pkt} {addr port : Nat} (hdec : h.decide e = .ok (.answer lis pkts addr port))
+    {first : Pkt} (hf : pkts.head? = some first) {qa : QA} (hqa : asyncResponse pkts (Gen.Reply.ucast_source port) e.seen = some qa)
+    (hport : port ≠ 5353) (hfam : w.SameFamily addr)
+    {p : Pkt} (hp : p ∈ pkts) {it : QItem} (hit : it ∈ p.items) (x : RecId) (hx : x ∈ (answerSet (unionKnown pkts) it).keys) :
+    (∃ d ∈ assemble w pkts addr port e.seen, d.sock = w.rx.id ∧ d.packet.multicast = false ∧ d.dest = replyDest w addr port ∧
+        d.packet.id = first.id ∧ x ∈ d.packet.answers) ∧
+    ((∀ s ∈ w.senders, ∃ d ∈ assemble w pkts addr port e.seen, d.sock = s.id ∧ d.dest = groupDest s ∧ d.packet.multicast = true ∧
+        x ∈ d.packet.answers) ∨
+     (∃ dl, ∃ blk ∈ tr, ∃ t b, blk.1 = .qfire t dl ∧ x ∈ b.keys ∧ e.time ≤ t ∧ t ≤ e.time + (if dl then 1200 else 500) ∧
+        ∀ s ∈ w.senders, ∀ fst, ({ sock := s.id, dest := groupDest s, packet := mcastContent b.keys (additionalsOf b) } : Sent Content) ∈
+          blk.2.outs.flatMap (realize w fst)) ∨
+     c' ≤ e.time + 1200) := by
+  obtain ⟨hu, hm⟩ := C11_query_legacy port hport hqa hp hit x hx
+  have hasm : Assembled h e pkts port first qa := ⟨⟨lis, addr, hdec⟩, hf, hqa⟩
+  constructor
+  · have hne : qa.ucast.isEmpty = false := Dict.isEmpty_false_of_mem hu
+    have hfil := C11_unicast_receiving_socket w hf hqa hne hfam
+    have hmem : ∀ d, d ∈ (assemble w pkts addr port e.seen).filter (fun d => !d.packet.multicast) → d ∈ assemble w pkts addr port e.seen :=
+      fun d hd => (List.mem_filter.mp hd).1
+    rw [hfil] at hmem
+    exact ⟨_, hmem _ (List.mem_singleton.mpr rfl), rfl, rfl, rfl, rfl, hu⟩
+  · have later : ∀ (dl : Bool), x ∈ (if dl then qa.mcastLast else qa.mcastAgg).keys →
+        (∃ dl, ∃ blk ∈ tr, ∃ t b, blk.1 = .qfire t dl ∧ x ∈ b.keys ∧ e.time ≤ t ∧ t ≤ e.time + (if dl then 1200 else 500) ∧
+          ∀ s ∈ w.senders, ∀ fst, ({ sock := s.id, dest := groupDest s, packet := mcastContent b.keys (additionalsOf b) } : Sent Content) ∈
+            blk.2.outs.flatMap (realize w fst)) ∨ c' ≤ e.time + 1200 := by
+      intro dl hxl
+      rcases C12_host_on_wire dl hI hr hasm hxl with ⟨blk, hblk, t, b, h1, h2, h3, h4, h5⟩ | hend
+      · left
+        refine ⟨dl, blk, hblk, t, b, h1, h3, h4, h5, ?_⟩
+        intro s hs fst
+        refine List.mem_flatMap.mpr ⟨_, h2, ?_⟩
+        rw [realize_mcast, multicast_eq]
+        exact List.mem_map.mpr ⟨s, hs, rfl⟩
+      · right
+        cases dl <;> simp at hend <;> omega
+    rcases hm with hnow | hagg | hlast
+    · left
+      have hne : qa.mcastNow.isEmpty = false := Dict.isEmpty_false_of_mem hnow
+      have hfil := C11_mcast_now_every_socket w (addr := addr) hf hqa hne
+      intro s hs
+      have hin : ({ sock := s.id, dest := { ip := if s.v6 then .group6 else .group4, port := 5353, fs := if s.v6 then some (s.flow, s.scope) else none },
+                    packet := mcastContent qa.mcastNow.keys (additionalsOf qa.mcastNow) } : Sent Content) ∈
+          (assemble w pkts addr port e.seen).filter (fun d => d.packet.multicast) := by
+        rw [hfil]; exact List.mem_map.mpr ⟨s, hs, rfl⟩
+      refine ⟨_, (List.mem_filter.mp hin).1, rfl, rfl, mcastContent_multicast _ _, ?_⟩
+      rw [mcastContent_eq]; exact hnow
+    · right; exact later false (by simpa using hagg)
+    · right; exact later true (by simpa using hlast)
+
+end EndToEnd
 
 /-! non-vacuity -/
 example : hasQuFlag [true, false] = true ∧ hasQuFlag [false, true, false] = true ∧ hasQuFlag [false, false] = false := by decide
